@@ -1177,6 +1177,19 @@ def check_kernel_mode(sb, kernel, view, key, mod, consts, mode, opts, res, known
                 continue
         if v == "sat":
             if okind == "bound":
+                if kernel.terminates:
+                    # termination claim: run the model on the real build; no return within the runner's 5 s alarm
+                    # (SIGALRM) confirms non-termination, anything else means the unwinding bound was too small
+                    inputs = model_inputs(model, argset)
+                    conf = replay(sb, kernel, view, key, consts, inputs, p, "bound", regions)
+                    if conf.get("replay") == "confirmed" and "signal 14" in str(conf.get("failed_claims")):
+                        rec["inputs"] = {k: (hex(x) if abs(x) > 1 << 20 else x) for k, x in inputs.items()}
+                        rec["symbolic_outcome"] = "UNWIND %s" % short(p.payload)
+                        rec.update(conf)
+                        rec["failed_claims"] = ["terminates: the real build did not return within 5 s"]
+                        res["violations"].append(rec)
+                        res["obligations"].append(rec)
+                        continue
                 rec["verdict"] = "bound-exceeded"
                 res["obligations"].append(rec)
                 continue
@@ -1204,9 +1217,11 @@ def check_kernel_mode(sb, kernel, view, key, mod, consts, mode, opts, res, known
     for kf, region in regions:
         found = None
         for i, p in enumerate(paths):
-            if p.kind == "UNWIND":
+            if p.kind == "UNWIND" and not kernel.terminates:
                 continue
-            if p.kind == "UB" and not kernel.allow_ub:
+            if p.kind == "UNWIND":
+                facts = [pre, region] + p.pc
+            elif p.kind == "UB" and not kernel.allow_ub:
                 facts = [pre, region] + p.pc
             else:
                 cl = [c for lab, c in (kernel.claims(env, p) if kernel.claims else []) if not lab.startswith("ub-ok")]
@@ -1219,6 +1234,8 @@ def check_kernel_mode(sb, kernel, view, key, mod, consts, mode, opts, res, known
             if v == "sat" and model is not None:
                 inputs = model_inputs(model, argset)
                 conf = replay(sb, kernel, view, key, consts, inputs, p, "ub" if p.kind == "UB" else "claim", [])
+                if p.kind == "UNWIND" and "signal 14" not in str(conf.get("failed_claims")):
+                    continue
                 if conf["replay"] == "confirmed":
                     found = {"id": kf.id, "inputs": inputs, "observed": conf.get("observed"), "kernel": kernel.name}
                     break
